@@ -220,8 +220,11 @@ type Env struct {
 	Quiet bool // do not record events (race regime)
 }
 
+// quiet switches the recorder off for every episode (race regime: its mutex would add happens-before edges)
+var quiet bool
+
 func NewEnv(prop string) *Env {
-	return &Env{Prop: prop, st: map[string]float64{}, sigH: 1469598103934665603}
+	return &Env{Prop: prop, st: map[string]float64{}, sigH: 1469598103934665603, Quiet: quiet}
 }
 
 // Tick returns a fresh logical timestamp.
